@@ -1,8 +1,8 @@
 (* Tie of the C10 model (Model/SecondOrder.v) to the current source: regenerated hashes, subscript
    strings and threshold literals (Extracted/Src.v) against the ones the model was written for
-   (Model/Expected.v and the literals below).  The two dimensionless case tests |EdE dt| > 1e-8,
-   |dEE dt| > 1e-8 are extracted literals; the exact-zero guards [np.not_equal(., 0)] of the divisions,
-   the -2 sin^2(x/2) form, the three case formulas and the order of the buffer updates are inside the
+   (Model/Expected.v and the literals below).  The two dimensionless case tests |EdE dt| > 1e-5,
+   |dEE dt| > 1e-5 are extracted literals; the exact-zero guards [np.not_equal(., 0)] of the divisions,
+   the -2 sin^2(x/2) form, the three case formulas (with their first-order terms, a13e2c1) and the order of the buffer updates are inside the
    hashed body of _second_order_integral.                                                          *)
 From Coq Require Import ZArith String List.
 From FF Require Import Extracted.Src Model.Expected.
@@ -11,7 +11,7 @@ Local Open Scope string_scope.
 
 Example tie_C10_second_order_integral :
   thr_numeric__second_order_integral =
-    [("np.abs(EdE * dt) > 1e-08", (3022314549036573, -78)%Z); ("np.abs(dEE * dt) > 1e-08", (3022314549036573, -78)%Z)]
+    [("np.abs(EdE * dt) > 1e-05", (5902958103587057, -69)%Z); ("np.abs(dEE * dt) > 1e-05", (5902958103587057, -69)%Z)]
   /\ Src.h_numeric__second_order_integral = Expected.h_numeric__second_order_integral.
 Proof. split; reflexivity. Qed.
 
